@@ -42,33 +42,46 @@ func (eq equator) equalMessage(mx, my pref.Message) bool {
 		return false
 	}
 
-	nx := 0
 	equal := true
 	mx.Range(func(fd pref.FieldDescriptor, vx pref.Value) bool {
 		if ignoredField(fd) {
 			return true // also when only one of the two messages has it
 		}
-		nx++
 		vy := my.Get(fd)
-		equal = my.Has(fd) && eq.equalField(fd, vx, vy)
+		if !my.Has(fd) {
+			equal = eq.equalZero(fd, vx, vy)
+			return equal
+		}
+		equal = eq.equalField(fd, vx, vy)
 		return equal
 	})
 	if !equal {
 		return false
 	}
-	ny := 0
-	my.Range(func(fd pref.FieldDescriptor, vx pref.Value) bool {
-		if ignoredField(fd) {
-			return true
+	my.Range(func(fd pref.FieldDescriptor, vy pref.Value) bool {
+		if ignoredField(fd) || mx.Has(fd) {
+			return true // compared above
 		}
-		ny++
-		return true
+		equal = eq.equalZero(fd, mx.Get(fd), vy) // only y has it
+		return equal
 	})
-	if nx != ny {
+	if !equal {
 		return false
 	}
 
 	return eq.equalUnknown(mx.GetUnknown(), my.GetUnknown())
+}
+
+// equalZero compares a field that is populated in only one of the two messages.
+// Like proto.Equal that is a difference, with one exception: a singular field without presence (a proto3
+// scalar) has no "unset", the unpopulated side holds the value zero, and a custom comparer for that kind of
+// value - a tolerance - may find zero equivalent to the other side's value.
+func (eq equator) equalZero(fd pref.FieldDescriptor, x, y pref.Value) bool {
+	if fd.HasPresence() || fd.IsList() || fd.IsMap() || eq.cmpValue == nil {
+		return false
+	}
+	equal, ok := eq.cmpValue(fd, x, y)
+	return ok && equal
 }
 
 // ignoredField reports whether fd is PullResponse.Change.change_time, which never takes part in a comparison.
